@@ -45,13 +45,7 @@ DRIVER = "DriverC08.lean"
 CORPUS = os.path.join(common.ROOT, "harness", "corpus", "c08.jsonl")
 
 # Genuine defects of cola found by this check and not yet decided (repair in /repo or entry in known_findings.json).
-PROVISIONAL_KNOWN = {
-    "bdiag-zero-multiplicity":
-        "result dtype: BlockDiag(Dense(float32 2x2), Dense(complex64 1x1), multiplicities=[1, 0]) has .dtype complex64 (the "
-        "constructor promotes over ALL blocks) but cola.linalg.diag / trace (rule diag(A: BlockDiag, ...) in "
-        "cola/linalg/trace/diag_trace.py: xnp.concat of the diagonals of the blocks that are present) return float32; "
-        "values are right (witness: theorem C08_dtype_clause_needed, corpus lines 17-20)",
-}
+PROVISIONAL_KNOWN = {}   # decided: `bdiag-zero-multiplicity` is recorded in /verif/known_findings.json (matched through common.known_clauses)
 # (history: `bdiag-nonsquare-block` and `kron-nonsquare-factor` — diag(BlockDiag) / diag(Kronecker) with non-square members
 #  returned wrong values — were found by this check and are repaired in /repo: the rules refuse now; see the corpus and
 #  the regression lemmas C08_regression_block / C08_regression_factor)
@@ -269,7 +263,7 @@ def judge_dtype(case, ans, real):
     if rdt == cdt:
         if cdt == sdt:
             return "ok", ""
-        if dtcl and all(c in PROVISIONAL_KNOWN or c in KNOWN_JSON for c in dtcl):
+        if dtcl and all(c in KNOWN_JSON for c in dtcl):
             return "known", dtcl
         return "violation", f"result dtype {rdt} (= code model) differs from the promotion of the leaf dtypes {sdt} and no named clause covers the case"
     if rdt == sdt:
@@ -305,13 +299,13 @@ def classify_values(case, ans, real, known):
         return "driver-error", ans["error"]
     if not ans.get("wf", True) or not ans.get("square", True):
         return "skipped", "not well-formed / not square"
-    foreign = [c for c in ans.get("clauses", []) if c not in PROVISIONAL_KNOWN]
+    foreign = [c for c in ans.get("clauses", []) if c not in PROVISIONAL_KNOWN and c not in KNOWN_JSON]
     if foreign:
         return "skipped", "hypothesis of C01 violated: " + ",".join(foreign)
     if bound_of(case, ans) >= treecheck.exact_bound(case):
         return "inexact", ""
     code, spec = ans["code"], ans["spec"]
-    clauses = [c for c in ans.get("clauses", []) if c in PROVISIONAL_KNOWN]
+    clauses = [c for c in ans.get("clauses", []) if c in PROVISIONAL_KNOWN or c in KNOWN_JSON]
     real_is_err = "err" in real
     real_eq_spec = (not real_is_err) and real["ok"] == spec
     if "err" in code:
@@ -989,7 +983,7 @@ def stream_c(ctx, eng, rng, count):
             eng.stats["driver-error"] += 1
             ctx.notes.append(f"driver error (stream C): {a['error']}")
             continue
-        if not a.get("wf") or not a.get("square") or [x for x in a.get("clauses", []) if x not in PROVISIONAL_KNOWN]:
+        if not a.get("wf") or not a.get("square") or [x for x in a.get("clauses", []) if x not in PROVISIONAL_KNOWN and x not in KNOWN_JSON]:
             eng.stats["skipped"] += 1
             continue
         if a["code"].get("ok") == a["spec"]:
